@@ -105,6 +105,12 @@ CHECKS = {
         'accelerator_table_consistent (53 entries: loop_time, loop_r_inc, one IN, one INC/DEC of the counter), walk soundness, accelerator_loop_trip, tsl_real_loop_equals_iteration (closes accelerated -> real), accelerators_unambiguous, matchers_agree (Python slice vs C wrap-around). '
         'Bit-identical snapshots across accelerator/dec-a/pause/python settings and the weak claim for fast-load/cmio are e2e on tap2sna with generated loaders for every recognised loop shape. One genuine defect was repaired (e618672, counter 0) and one is a known finding (negative first-edge, C raises).',
    note=TB + 'generated Z80 model + hand models Model/LoadAccel, LoadTape, AccelWalk tied by correspondence (3k load-loop iterations/run on Python and C); the C load loop is tied differentially only', ref='§8 C13'),
+ 'C20': dict(cat='proof', technique='Lean 4 theorems: RZX input-block codec round trip by induction over frames; per-closure R/M1 facts generated from the simulator sources each run and kernel-decided over all 1792 slots; playback as a fold over frames (append/stop/resume by induction), record-then-play by induction over the recorded plan + model/implementation correspondence on process_block and whole files + e2e with an independent recorder',
+   text='25 theorems: input_roundtrip (+repeat marker; the 65535-readings corner made explicit), rzxinfo_agrees_with_rzxplay and rzxinfo_reports_recorded; closure_r_update (all closures, both simulators), dispatch_r_increments, fetch_dec_eq_m1 (+cmio), c_fetch_dec_eq_py, c_frame_eq_py_frame; '
+        'play_append, stop_then_continue (every k, flags, zero-fetch frames), playback_ignores_unsaved_state, resume_rzx (+cmio up to the clock), flag4_irrelevant_for_faithful_snapshots, end_of_frame_implements_convention (byte at 0 not EI/DD/FD); '
+        'port_input_is_local, record_then_play (+in_range: from any RInv state, a recording of the simulator\'s own run plays back through exactly the recorded instructions to the recorder\'s final state), end_of_frame_keeps_ranges. '
+        'The snapshot round trip enters the resume theorems as the hypothesis SnapEq/ClockEq (C09/C10 cover it; composed behaviour on the real tools is e2e); Faithful/PlanOkR are hypotheses on the recording. One defect repaired (a0f7060), one known finding (last instruction of a frame rewrites its own opcode).',
+   note=TB + 'generated Z80 models + hand models Model/RzxInput, RzxPlay and Spec/RzxM1, RzxConvention tied by correspondence (10.9k comparisons/run, Python and C, plain and cmio); C exec_frame tied differentially only; screen drawing/--map/--trace not modelled', ref='§8 C20'),
 }
 NA = {}
 def main():
